@@ -167,7 +167,8 @@ impl St {
                                     for (budget, panic) in [(0, false), (full / 2, false), (full.saturating_sub(1), false), (full / 2, true), (0, true)] {
                                         match untracked(|| d.debug_failing(budget, panic)) {
                                             Some(true) | None => {}
-                                            Some(false) => return Err(format!("formatting the drain into a sink that accepts {budget} of {full} bytes reported success")),
+                                            Some(false) if full > 0 => return Err(format!("formatting the drain into a sink that accepts {budget} of {full} bytes reported success")),
+                                            Some(false) => {}
                                         }
                                         if d.len() != hi - lo {
                                             return Err(format!("after an interrupted {{:?}} the drain reports len {} (expected {})", d.len(), hi - lo));
